@@ -296,6 +296,29 @@ def _check_separate_objects(t: Tally):
         except Exception as e:  # noqa: BLE001
             t.violation({"kind": "encodings-share-state", "class": name, "exc": type(e).__name__}, {"separate_objects": True, "class": name}, observed=repr(e)[:200])
         t.nontrivial += 1
+    # two parameters whose type objects are distinct and merely share a NAME (two subsystems each bringing their own "U16"): each parameter is
+    # decoded as its own type object says
+    from space_packet_parser.xtce import containers, definitions, parameter_types, parameters
+    for label, ea, eb, data, want in (
+            ("byte order", encodings.IntegerDataEncoding(16, "unsigned"), encodings.IntegerDataEncoding(16, "unsigned", byte_order="leastSignificantByteFirst"),
+             bytes([0x12, 0x34, 0x12, 0x34]), [0x1234, 0x3412]),
+            ("sign and width", encodings.IntegerDataEncoding(8, "unsigned"), encodings.IntegerDataEncoding(16, "twosComplement"), bytes([0xFF, 0xFF, 0xFE]), [255, -2]),
+            ("float byte order", encodings.FloatDataEncoding(32), encodings.FloatDataEncoding(32, byte_order="leastSignificantByteFirst"),
+             bytes.fromhex("3fc00000" "0000c03f"), [1.5, 1.5])):
+        t.evals += 1
+        try:
+            cls = parameter_types.FloatParameterType if label.startswith("float") else parameter_types.IntegerParameterType
+            pa = parameters.Parameter("A", cls("SHARED_NAME", ea))
+            pb = parameters.Parameter("B", cls("SHARED_NAME", eb))
+            defn = definitions.XtcePacketDefinition([containers.SequenceContainer("CCSDSPacket", [pa, pb])])
+            out = defn.parse_ccsds_packet(CCSDSPacket(raw_data=data))
+            got = [out["A"], out["B"]]
+            if [float(x) for x in got] != [float(x) for x in want] or out.raw_data.pos != 8 * len(data):
+                t.violation({"kind": "same-named-types-merged", "what": label}, {"separate_objects": True, "class": "same-named types: " + label}, expected=want,
+                            observed=[repr(x) for x in got], note="two distinct type objects that share a name: a parameter was decoded with the other parameter's type")
+        except Exception as e:  # noqa: BLE001
+            t.violation({"kind": "same-named-types-merged", "what": label, "exc": type(e).__name__}, {"separate_objects": True, "class": "same-named types: " + label}, observed=repr(e)[:200])
+        t.nontrivial += 1
 
 
 def cold_probe():
